@@ -1398,3 +1398,47 @@ func oracleC11(x *exec, v *viols, pre, post *snap, rp *reply) {
 		v.out = append(v.out, sv)
 	}
 }
+
+
+// ---------------------------------------------------------------------------
+// C14
+
+// probeC14: after every history (in particular after refused requests) a canonical valid request sequence must still be served.
+func probeC14(w *mc.Worker, s *scenario, dir string, trace []string, x *exec, post *snap) []mc.Violation {
+	if x.in.dead {
+		return nil
+	}
+	v := &viols{prop: "C14", scn: s.name, trace: append(append([]string{}, trace...), "<probe>")}
+	pod := &wpod{slot: "pprobe", spec: &podSpec{name: "probe", ns: "default", qos: "BestEffort", ctrs: []ctrSpec{{name: "c", t: tBE}}}}
+	c := &wctr{slot: "cprobe", spec: &pod.spec.ctrs[0], pod: pod}
+	ctx := context.Background()
+	p := x.in.m.nri
+	var err error
+	steps := []struct {
+		name string
+		fn   func()
+	}{
+		{"RunPodSandbox", func() { err = p.RunPodSandbox(ctx, pod.nri()) }},
+		{"CreateContainer", func() { _, _, err = p.CreateContainer(ctx, pod.nri(), c.nri(api.ContainerState_CONTAINER_CREATED, res{})) }},
+		{"StartContainer", func() { err = p.StartContainer(ctx, pod.nri(), c.nri(api.ContainerState_CONTAINER_RUNNING, res{})) }},
+		{"StopContainer", func() { _, err = p.StopContainer(ctx, pod.nri(), c.nri(api.ContainerState_CONTAINER_RUNNING, res{})) }},
+		{"RemoveContainer", func() { err = p.RemoveContainer(ctx, pod.nri(), c.nri(api.ContainerState_CONTAINER_STOPPED, res{})) }},
+		{"StopPodSandbox", func() { err = p.StopPodSandbox(ctx, pod.nri()) }},
+		{"RemovePodSandbox", func() { err = p.RemovePodSandbox(ctx, pod.nri()) }},
+	}
+	for _, st := range steps {
+		err = nil
+		pan, msg, where := mc.Guard(st.fn)
+		if pan {
+			v.add("probe-panics", "probe-panics@"+where+":"+st.name, "after the history a valid %s panics: %s", st.name, msg)
+			x.in.dead = true
+			break
+		}
+		if err != nil {
+			v.add("probe-refused", "probe-refused:"+st.name, "after the history a valid %s of a fresh BestEffort container is refused: %v", st.name, err)
+			break
+		}
+	}
+	verifCounters["c14_probes"]++
+	return v.out
+}
